@@ -11,7 +11,8 @@ Inductive wop :=
 | WAll (exp : list Z)                      (* ids returned by All(), in order *)
 | WFiles (exp : list (name * list Z))      (* directory listing: name and record ids of every file *)
 | WReopen
-| WCrash (r : rec) (fresh : name) (cut : Z).
+| WCrash (r : rec) (fresh : name) (cut : Z)
+| WReject (fresh : name).                  (* an Append whose entry cannot be encoded: maybeRotate has run, nothing is written *)
 
 Fixpoint zl_eqb (a b : list Z) : bool :=
   match a, b with [], [] => true | x :: a', y :: b' => (x =? y) && zl_eqb a' b' | _, _ => false end.
@@ -31,6 +32,7 @@ Definition wstep (w : wal) (o : wop) : wal * bool :=
   | WFiles exp => (w, files_eqb (sort_files (w_dir w)) exp)
   | WReopen => (open_wal (w_dir w), true)
   | WCrash r fresh cut => (open_wal (crash_append w r fresh cut), true)
+  | WReject fresh => match maybe_rotate w fresh with inr w' => (w', true) | inl _ => (w, false) end
   end.
 
 Fixpoint wrun (w : wal) (ops : list wop) (idx : Z) : Z :=
